@@ -4,6 +4,8 @@
  *   xfer <dir> <bodyLen> <seed> <cszx|-> <sszx|-> <mtu> <con> <single> <sched> [<bodyLen2> <seed2>]
  *
  *   dir     put    Block1: the client application PUTs a body with coap_add_data_large_request()
+ *           pute / putt   the same, the application supplying its own Request-Tag: EMPTY (length 0) / 3 bytes
+ *           puts   the same, BOTH transfers go to resource "b" and only the Request-Tag tells them apart (EMPTY / 1 byte)
  *           get    Block2: the client GETs, the server application answers with coap_add_data_large_response()
  *           rawput Block1 blocks built by hand (no Size1 option, as a foreign client may send them) injected into
  *                  the server endpoint in the order given by <sched> = n,n,n (block numbers)
@@ -134,12 +136,16 @@ static int xf_on_event(coap_session_t *session, const coap_event_t event) { (voi
 
 static void xf_start(coap_session_t *cs, int which, const char *dir, int cszx, int con) {
   coap_pdu_t *p = coap_new_pdu(con ? COAP_MESSAGE_CON : COAP_MESSAGE_NON,
-                               !strcmp(dir, "put") ? COAP_REQUEST_CODE_PUT : COAP_REQUEST_CODE_GET, cs);
+                               !strncmp(dir, "put", 3) ? COAP_REQUEST_CODE_PUT : COAP_REQUEST_CODE_GET, cs);
   uint8_t buf[4];
   coap_add_token(p, 4, app_tok[which]);
-  coap_add_option(p, COAP_OPTION_URI_PATH, 1, (const uint8_t *)(which ? "c" : "b"));
-  if (!strcmp(dir, "put")) {
+  coap_add_option(p, COAP_OPTION_URI_PATH, 1, (const uint8_t *)(which && strcmp(dir, "puts") ? "c" : "b"));
+  if (!strncmp(dir, "put", 3)) {
     if (cszx >= 0) coap_add_option(p, COAP_OPTION_BLOCK1, coap_encode_var_safe(buf, sizeof(buf), (unsigned)cszx), buf);
+    /* the application's own Request-Tag (libcoap only adds one if there is none) */
+    if (!strcmp(dir, "pute") || (!strcmp(dir, "puts") && !which)) coap_add_option(p, COAP_OPTION_RTAG, 0, NULL);
+    else if (!strcmp(dir, "putt")) { uint8_t t[3] = {0x31, 0x32, (uint8_t)(0x33 + which)}; coap_add_option(p, COAP_OPTION_RTAG, 3, t); }
+    else if (!strcmp(dir, "puts")) { uint8_t t[1] = {0x42}; coap_add_option(p, COAP_OPTION_RTAG, 1, t); }
     if (!coap_add_data_large_request(cs, p, xf_len[which], xf_body[which], xf_rel_cb, (void *)(intptr_t)which)) {
       sim_logf("adl-fail:%d", which + 1);
       coap_delete_pdu(p);
@@ -158,7 +164,8 @@ static void do_xfer(int n, char **w) {
   int con = atoi(w[7]), single = atoi(w[8]);
   int ntr = n == 12 ? 2 : 1;
   uint32_t mode = COAP_BLOCK_USE_LIBCOAP | (single ? COAP_BLOCK_SINGLE_BODY : 0);
-  if (strcmp(dir, "put") && strcmp(dir, "get") && strcmp(dir, "rawput")) { printf("bad-op"); return; }
+  if (strcmp(dir, "put") && strcmp(dir, "get") && strcmp(dir, "rawput") && strcmp(dir, "pute") && strcmp(dir, "putt") &&
+      strcmp(dir, "puts")) { printf("bad-op"); return; }
   xf_len[0] = strtoull(w[2], 0, 10); xf_body[0] = mk_body(xf_len[0], (unsigned)atoi(w[3]));
   xf_len[1] = ntr == 2 ? strtoull(w[10], 0, 10) : 0; xf_body[1] = mk_body(xf_len[1], ntr == 2 ? (unsigned)atoi(w[11]) : 0);
   xf_rel[0] = xf_rel[1] = 0;
